@@ -123,7 +123,7 @@ class GenotypeVcf(BCheck):
     name = "C08.run_genotype-output"
     contract = ("every genotyped call of `whatshap genotype` (output VCF and --prioroutput VCF): 10^GL sums to one; GT is the unique maximum of GL if that exceeds the threshold "
                 "1 - 10^(-T/10) and ./. otherwise; GQ == round(-10 log10(sum of the other genotypes' likelihoods)) (+-1 for the 6-digit GL text)")
-    rule = ("seeded diploid BAM scenarios (1 sample, or 2-3 unrelated samples genotyped in one run; SNVs, depth 1-6, read length 30-100 so that some variants are covered only by reads seeing no second variant), thresholds T in "
+    rule = ("seeded diploid BAM scenarios (1 sample, or 2-3 unrelated samples genotyped in one run, a quarter of the multi-sample runs with --sample = the first sample only; SNVs, depth 1-6, read length 30-100 so that some variants are covered only by reads seeing no second variant), thresholds T in "
             "{0, 3, 10, 20, 50}, --constant in {0, 0.01, 0.05, 0.3}, priors on/off, with --prioroutput; calls within 1e-4 of a tie or of the threshold are skipped; "
             "non-trivial = the file has a call that is not ./.")
     budget_s = {"quick": 150, "thorough": 1500}
@@ -131,7 +131,7 @@ class GenotypeVcf(BCheck):
 
     def inputs(self, tier, rng):
         for i in range(300 if tier == "quick" else 5000):
-            yield dict(seed=rng.getrandbits(48), T=[0, 3, 10, 20, 50][i % 5], constant=[0.0, 0.05, 0.01, 0.3][i % 4], nopriors=(i % 6 == 5))
+            yield dict(seed=rng.getrandbits(48), T=[0, 3, 10, 20, 50][i % 5], constant=[0.0, 0.05, 0.01, 0.3][i % 4], nopriors=(i % 6 == 5), subset=(i % 4 == 1))
 
     def check(self, inp):
         import logging
@@ -151,9 +151,11 @@ class GenotypeVcf(BCheck):
             with open(vcf, "w") as f:
                 f.write(BAM.vcf_text(sc))
             out, prior = os.path.join(d, "out.vcf"), os.path.join(d, "prior.vcf")
+            # --sample: only the FIRST sample is genotyped; the others are not (their calls must come out as "not genotyped", whatever the genotyped one got)
+            selected = [sc["samples"][0]] if (inp.get("subset") and len(sc["samples"]) > 1) else None
             try:
                 run_genotype([paths["bam"]], vcf, reference=paths["fasta"], output=out, gt_qual_threshold=inp["T"], constant=inp["constant"], nopriors=inp["nopriors"],
-                             prioroutput=None if inp["nopriors"] else prior, write_command_line_header=False)
+                             prioroutput=None if inp["nopriors"] else prior, write_command_line_header=False, samples=selected)
             except Exception as e:
                 import traceback
                 return dict(expected="run_genotype succeeds", observed="%s: %s" % (type(e).__name__, e), traceback=traceback.format_exc()[-1500:])
@@ -164,6 +166,12 @@ class GenotypeVcf(BCheck):
                 with open(p) as f:
                     _, samples, recs = V.parse(f.read())
                 for rec, (si, call) in ((rec, sc_) for rec in recs for sc_ in enumerate(rec["calls"])):
+                    if selected is not None and samples[si] not in selected:
+                        gt = call.get("GT", ".")
+                        if gt.replace("|", "/") not in ("./.", "."):
+                            return dict(expected="%s %s:%d sample %s was not genotyped (--sample %s): GT ./." % (which, rec["chrom"], rec["pos"], samples[si], selected[0]),
+                                        observed=gt, clause="not-genotyped")
+                        continue
                     if "GL" not in call or call["GL"] in (".", None):
                         continue
                     L = [10 ** float(x) for x in call["GL"].split(",")]
